@@ -161,7 +161,9 @@ int32_t jls_twr_run(struct jls_twr_s * self) {
                     break;
                 case MSG_FLUSH:
                     jls_wr_flush(self->wr);
+                    jls_bkt_msg_lock(self->bk);  // jls_twr_flush polls this id
                     self->flush_processed_id = hdr.d > self->flush_processed_id ? hdr.d : self->flush_processed_id;
+                    jls_bkt_msg_unlock(self->bk);
                     break;
                 case MSG_USER_DATA:
                     rc = jls_wr_user_data(self->wr, hdr.h.user_data.chunk_meta, hdr.h.user_data.storage_type,
@@ -277,6 +279,14 @@ static int32_t msg_send(struct jls_twr_s * self, const struct msg_header_s * hdr
     return JLS_ERROR_BUSY;
 }
 
+// The writer thread updates the id under the message lock.
+static uint64_t flush_processed_id_get(struct jls_twr_s * self) {
+    jls_bkt_msg_lock(self->bk);
+    uint64_t flush_processed_id = self->flush_processed_id;
+    jls_bkt_msg_unlock(self->bk);
+    return flush_processed_id;
+}
+
 int32_t jls_twr_flush(struct jls_twr_s * self) {
     uint64_t flush_id;
     struct msg_header_s hdr = { .msg_type = MSG_FLUSH };
@@ -289,7 +299,7 @@ int32_t jls_twr_flush(struct jls_twr_s * self) {
 
     int64_t t_start = jls_now();
     int64_t t_stop = t_start + JLS_TIME_MILLISECOND * (int64_t) JLS_BK_FLUSH_TIMEOUT_MS;
-    while (self->flush_processed_id < flush_id) {
+    while (flush_processed_id_get(self) < flush_id) {
         jls_bkt_sleep_ms(10);
         if (jls_now() >= t_stop) {
             JLS_LOGE("flush timed out");
